@@ -148,6 +148,10 @@ class HTMLSub(ht.HTML):
     """An HTML subclass: still trusted markup."""
 
 
+class DynObj:
+    """Instances of ONE class that differ in instance-level protocol methods (tagify / _repr_html_ set on the instance)."""
+
+
 class TFStr(str):
     """A str subclass that is also tagifiable (expands to its payload)."""
 
@@ -275,6 +279,13 @@ def _build(r):
     if k == "dup":
         one = build(r["c"])
         return [one, [one]] + [one] * (r["n"] - 2) if r.get("nest") else [one] * r["n"]
+    if k == "inst":
+        o = DynObj()
+        if r["has"] == "tagify":
+            o.tagify = lambda: ht.TagList("dyn")
+        elif r["has"] == "repr":
+            o._repr_html_ = lambda: "<i>dyn</i>"
+        return o
     if k == "bad":
         t = r["t"]
         return {"object": object, "dict": lambda: {"a": 1}, "bytes": lambda: b"xy", "set": lambda: {1, 2},
